@@ -684,10 +684,17 @@ def main():
     runs = sc.get("runs", [{"rid": 0, "control": sc.get("control", [])}])
     watchdog = sc.get("watchdog", 15)
 
+    dumping = threading.Lock()
+
     def dump_and_exit(code):
+        # one writer only (the watchdog and the main thread may get here at the same moment), and the
+        # file appears complete or not at all
+        dumping.acquire()
         with LOCK:
             data = {"log": list(LOG), "overlap": world.overlap_seen, "hung": code != 0}
-        json.dump(data, open(out_path, "w"))
+        with open(out_path + ".part", "w") as f:
+            json.dump(data, f)
+        os.replace(out_path + ".part", out_path)
         os._exit(0)
 
     def dog():
